@@ -816,13 +816,18 @@ def readAfter (bs : List Bound) (parsesArg : Bool) (args : List Arg) (k : Str) :
   | .ok r => some (readKey bs r k)
   | _ => none
 
-/-- the flag that never takes effect (recorded finding C18-dashboard-tls-mode-flag): as the code
-    stands `--dashboard_tls_mode=true --dashboard_tls_cert_file=c.pem` leaves WebServer.TLS nil;
-    a Set that parsed its argument would publish the certificate file -/
+/-- the flag that never took effect on the pinned tree (finding C18-dashboard-tls-mode-flag, repaired
+    in /repo): with a `Set` that ignores its argument `--dashboard_tls_mode=true
+    --dashboard_tls_cert_file=c.pem` leaves WebServer.TLS nil; a Set that parses its argument
+    publishes the certificate file -/
 theorem dashboard_tls_flag_witness :
-    boolFuncIgnoresArg = true ∧
-    readAfter serverCmd (!boolFuncIgnoresArg) tlsArgs certKey = some .zero ∧
+    readAfter serverCmd false tlsArgs certKey = some .zero ∧
     readAfter serverCmd true tlsArgs certKey = some (.str (Str.ofString "c.pem")) := by decide +kernel
+
+/-- the code as it is now (regenerated fact): `Set` parses its argument, and the flag takes effect -/
+theorem dashboard_tls_flag_fixed :
+    boolFuncIgnoresArg = false ∧
+    readAfter serverCmd (!boolFuncIgnoresArg) tlsArgs certKey = some (.str (Str.ofString "c.pem")) := by decide +kernel
 
 /-- predicate for the driver: the implementation's structs after parsing agree, on every listed field,
     with the documented binding (`exp` = the run over the documented table) -/
